@@ -319,6 +319,48 @@ def run_core_check(ctx, spec):
         samples.append({"family": cs["family"], "first_events": [
             {k: e.get(k) for k in ("ev", "r", "in", "h") if k in e} for e in vlib.read_ndjson(trace_path)[:6]]})
 
+    sp = spec.get("scripts")
+    if sp:
+        # hand-written scripts (the repository's own fixtures, the idiom corpus /verif/scripts) run exactly as written:
+        # the program the specification judges is the dialogue the library parsed (core fromscripts), the
+        # text the runner gets is the original file
+        dirs = [os.path.join(vlib.VERIF, "scripts"), os.path.join(ctx.copy_repo(), "testdata")]
+        path, tpath = ctx.path("cases_scripts.ndjson"), ctx.path("texts_scripts.ndjson")
+        p = ctx.harness(["core", "fromscripts", "--dirs", ",".join(dirs), "--out", path, "--texts", tpath])
+        conv = json.loads(p.stdout.strip().splitlines()[-1])
+        cases, _ = load_cases(path)
+        if len(cases) < 30:
+            raise vlib.MachineryError("only %d of %d hand-written scripts were converted: %s" % (len(cases), conv["scripts"], conv["skipped"]))
+        for mode in sp.get("modes", [None]):
+            args = ["core", "record", "--cases", path, "--texts", tpath, "--out", ctx.path("trace_scripts_%s.ndjson" % (mode or "walk")),
+                    "--paths", sp["paths"][t], "--calls", sp.get("calls", 80)]
+            if mode:
+                args += ["--mode", mode]
+            elif sp.get("hostsets"):
+                args += ["--hostsets", "1"]
+            rp = ctx.harness(args, timeout=1200)
+            rstats = json.loads(rp.stdout.strip().splitlines()[-1])
+            trace_path = ctx.path("trace_scripts_%s.ndjson" % (mode or "walk"))
+            res = validate(ctx, path, trace_path, label="YarnTrace: hand-written scripts as written (%s)" % (mode or "random walks"))
+            tix = None
+            for b in res["bad"]:
+                info = {"after_end": b["ended"], "pend": b["pend"], "waitc": b["waitc"], "ev": b["ev"], "family": "scripts",
+                        "after_error": False, "panic": None}
+                if spec["scope"](b["field"], b["exp"], b["got"], info):
+                    tix = tix or TraceIndex(trace_path)
+                    ctx.violation(trace_payload(cases, tix, b),
+                                  "recorded run of a hand-written script rejected by the specification (script %s, trace line %d, event %s): %s"
+                                  % (conv["accepted"][b["id"] - 1], b["line"], b["ev"], describe_diff(b["field"], b["exp"], b["got"])),
+                                  signature=spec["sig"] + ":scripts:" + b["field"])
+                else:
+                    oos += 1
+            evaluations += rstats["paths"]
+            nontrivial += rstats["paths"]
+            ctx.cover(scripts_converted=len(cases), scripts_skipped=conv["skipped"], scripts_recorded_paths=rstats["paths"],
+                      scripts_recorded_events=rstats["events"], scripts_trace_events_checked=res["stats"]["checked"])
+            if res["stats"]["checked"] == 0:
+                raise vlib.MachineryError("trace validation of the hand-written scripts checked no event")
+
     if spec.get("merge"):
         # an additional stage of a check that has its own main pipeline: counts accumulate, the
         # stage's rule is kept under its own key
